@@ -189,7 +189,13 @@ def random_script(rng, target, nsteps):
                     fbs.append(random_twcc(rng, tw - back, ref, big=rng.random() < 0.03))
                 else:
                     fbs.append(random_ccfb(rng, rts, streams))
-            steps.append({"a": "fb", "wire": True, "at": now, "fbs": fbs})
+            wire = True
+            if target == "cc" and fbs[0]["k"] == "twcc" and rng.random() < 0.06:
+                wire = False                      # hand the struct to the adapter directly: deltas may be too few
+                if fbs[0]["deltas"] and rng.random() < 0.6:
+                    fbs[0]["deltas"].pop()
+                    fbs[0]["dtypes"].pop()
+            steps.append({"a": "fb", "wire": wire, "at": now, "fbs": fbs})
     return {"target": target, "refbase": REFBASE, "steps": steps}
 
 
